@@ -258,3 +258,48 @@ Proof.
   - intros ? [].
 Qed.
 End Prov.
+
+(** * Poll-level statements *)
+Definition done_final (c : cfg) (p : pin) : list report :=
+  if qcode_eqb (qcode p) QERROR && negb (dry c) then [] else delivered c p.
+
+Theorem poll_J3 c g s p : WF g -> Inv g s -> valid_pin s p = true ->
+  J3 c g p s (fst (poll c g s p)) [] [] (done_final c p).
+Proof.
+  intros W I V. pose proof (poll_reach c g p W s I V) as R.
+  exact (psteps_ind_inv c g p (J3c c g p s) (J3_step c g p s W) _ _ R (J3_start c g p s)).
+Qed.
+
+Theorem poll_events c g s p : WF g -> Inv g s -> valid_pin s p = true ->
+  forall x k sc res, In (ESubmit x k sc res) (evs (fst (poll c g s p))) ->
+  sc = scheduled (attr g x) /\ dry c = false /\ x < length g /\ ~ FC s x /\ (forall u, FC s u -> ~ reach g u x) /\
+  match k with
+  | Restart => has_restart (attr g x) = true /\ qcode p = QOK /\ In (x, Some TIMEDOUT) (reports p) /\ In x (inprog s)
+  | Main => qcode p = QOK -> ~ In (x, Some TIMEDOUT) (reports p)
+  end.
+Proof.
+  intros W I V x k sc res H. pose proof (poll_J3 c g s p W I V) as J.
+  destruct (j_ev _ _ _ _ _ _ _ _ J x k sc res H) as (A1 & A2 & A3 & A4 & A5 & A6).
+  splits; auto. destruct (j_done _ _ _ _ _ _ _ _ J) as [D1 D2]. destruct k.
+  - intros Q. unfold done_final, delivered in A6. rewrite A2, Q in A6. exact A6.
+  - destruct A6 as [A6 A7]. apply valid_pin_spec in V. destruct V as [_ Vi].
+    assert (Hne : done_final c p <> []) by (intros E; rewrite E in A7; destruct A7).
+    destruct (D2 Hne) as [_ Q]. splits; auto. eapply Vi; eauto.
+Qed.
+
+Theorem poll_restarts c g s p : WF g -> Inv g s -> valid_pin s p = true -> 0 < attempts c ->
+  forall x, restarts (getrec (fst (poll c g s p)) x) =
+            restarts (getrec s x) + (if rsub_in x (evs (fst (poll c g s p))) then 1 else 0).
+Proof. intros W I V Ha. exact (j_r _ _ _ _ _ _ _ _ (poll_J3 c g s p W I V) Ha). Qed.
+
+Theorem poll_mono c g s p : WF g -> Inv g s -> valid_pin s p = true ->
+  let s' := fst (poll c g s p) in
+  (forall y, In y (failed s) -> In y (failed s')) /\ (forall y, In y (cancelled s) -> In y (cancelled s')) /\
+  (forall y, In y (completed s) -> In y (completed s')) /\ (canceled s = true -> canceled s' = true).
+Proof.
+  intros W I V. pose proof (poll_J3 c g s p W I V) as J. cbv zeta. splits.
+  - apply (j_f _ _ _ _ _ _ _ _ J).
+  - apply (j_c _ _ _ _ _ _ _ _ J).
+  - apply (j_k _ _ _ _ _ _ _ _ J).
+  - apply (j_cn _ _ _ _ _ _ _ _ J).
+Qed.
